@@ -53,6 +53,7 @@ func (c11) Cases(tier string, seed int64, kf *KnownFindings) []Case {
 	for i := 0; i < nr; i++ {
 		add(Case{Kind: "rand", K: i % len(c11kinds), Seed: Mix(seed, i), Count: per})
 	}
+	add(Case{Kind: "oneshot", Count: 1})
 	return cs
 }
 
@@ -103,7 +104,8 @@ func newC11World() *c11world {
 		&zoo.NamedHolder{One: zoo.NamedS{Key: "k", Value: 1}, Ptr: &zoo.NamedS{Key: "p", Value: 2}, Many: []zoo.NamedS{{Key: "m", Value: 3}}}, // custom class names
 		&zoo.Scalars{S: strings.Repeat("s", 2100), Bin: bytes.Repeat([]byte{5}, 9000)},                                                        // chunked string and binary
 		[]byte(strings.Repeat("b", 5000)),
-		&zoo.NamedMapHolder{M: zoo.NamedMap{"k": 5, "j": 6}, N: 1}, // a typed ('M') map in a struct field
+		&zoo.NamedMapHolder{M: zoo.NamedMap{"k": 5, "j": 6}, N: 1},                                            // a typed ('M') map in a struct field
+		&zoo.Bag{P01: &zoo.K01{A: 1}, P02: &zoo.K02{A: 2}, P03: &zoo.K03{A: 3}, P04: &zoo.K04{A: 4}, Tail: 5}, // five class definitions in one message
 	}
 	n := &zoo.Node{Val: 9}
 	n.Next = n
@@ -175,7 +177,8 @@ func newC11World() *c11world {
 	for i := 0; i < 250; i++ {
 		nested40 = append(nested40, 'Z')
 	}
-	w.decProbes = [][]byte{p1, p2, ptrReg, nested40, {0x60}, {0x51, 0x90}, {0x72, 0x90, 0x90, 0x91}, {'O', 0x90}, {0x79, 0x51, 0x91}}
+	legacyBin := []byte{0x62, 0x00, 0x02, 'h', 'i', 0x23, 'l', 'l', 'o'} // a legacy non-final binary chunk 'b' in a message WITHOUT class definitions
+	w.decProbes = [][]byte{p1, p2, ptrReg, nested40, legacyBin, {0x60}, {0x51, 0x90}, {0x72, 0x90, 0x90, 0x91}, {'O', 0x90}, {0x79, 0x51, 0x91}}
 	return w
 }
 
@@ -300,6 +303,10 @@ func (c11) Run(c Case, env *Env) Result {
 	// multi-entry maps, so their errors are a function of the call); a probe whose result on two
 	// FRESH instances differs is not used as an oracle.
 	errClassWithMessage = true
+	if c.Kind == "oneshot" {
+		c11oneshot(c, env, &res)
+		return res
+	}
 	w := newC11World()
 	if !sameNames(w.nm, w.nmExtracted) {
 		// the very first encodes over the freshly extracted (complete) name map wrote to it
@@ -464,4 +471,41 @@ func (c11) Run(c Case, env *Env) Result {
 		}
 	}
 	return res
+}
+
+// c11oneshot: the package-level one-shot functions are "instances" too: what an earlier call was given
+// (a name map, a type map) must not show in a later call that is given nothing.
+func c11oneshot(c Case, env *Env, res *Result) {
+	inner := &zoo.Inner{A: 1, S: "x"}
+	other := &zoo.Inner2{}
+	renaming := map[string]string{"Inner": "com.acme.Renamed"}
+	before := copyNames(renaming)
+	enc := func(v interface{}, nm map[string]string) string {
+		b, err := hessian.ToBytes(v, nm)
+		return fmt.Sprintf("%x/%v", b, err != nil)
+	}
+	dec := func(b []byte, tm map[string]reflect.Type) string {
+		v, err := hessian.ToObject(b, tm)
+		return fmt.Sprintf("%T/%v", v, err != nil)
+	}
+	wire, _ := hessian.ToBytes(inner, nil)
+	fresh := []string{enc(inner, nil), enc(other, nil), dec(wire, nil)}
+	for round := 0; round < 40; round++ {
+		res.Evals++
+		enc(inner, renaming) // a call WITH maps ...
+		dec(wire, map[string]reflect.Type{"Inner": reflect.TypeOf(zoo.Inner{})})
+		got := []string{enc(inner, nil), enc(other, nil), dec(wire, nil)} // ... then calls without
+		for i := range got {
+			if got[i] != fresh[i] {
+				env.Viol(res, Violation{Class: "differs-from-fresh", Features: []string{"one-shot functions"}, Detail: fmt.Sprintf("round %d: after ToBytes / ToObject calls WITH maps, a call without maps gives %s; before any such call it gave %s", round, got[i], fresh[i]), Case: c})
+				return
+			}
+		}
+		if !sameNames(renaming, before) {
+			env.Viol(res, Violation{Class: "map-modified", Features: []string{"one-shot functions"}, Detail: fmt.Sprintf("round %d: a later one-shot call without a name map wrote to the name map of an EARLIER call: %v", round, renaming), Case: c})
+			return
+		}
+	}
+	res.NT = append(res.NT, Hash64("oneshot"), Hash64("oneshot2"))
+	res.Count("one_shot_call_sequences", 40)
 }
